@@ -135,20 +135,26 @@ Exactly(ts) ==
   /\ \A x, y \in ObsInvs : x.edition = y.edition => x = y
   /\ \A x \in ObsInvs : x.files # {}
 DeclTargets == IF DeclSelected.err THEN {} ELSE TargetsOf(DeclSelected.pk)
+(* an unusable --manifest-path (no such file, or not a manifest) is an error before anything  *)
+(* is formatted -- whatever package the working directory happens to lie in                   *)
+BadManifest == "mp" \in DOMAIN S /\ S.mp \in {"missing", "malformed"}
+Judged == HasObs /\ ~BadManifest
+ManifestError == (HasObs /\ BadManifest) => (S.inv = <<>> /\ S.exit # 0)
 RightTargets ==
-  HasObs => /\ (Exactly(DeclTargets) \/ (NoCurrent /\ Exactly(TargetsOf(Members))))
+  Judged => /\ (Exactly(DeclTargets) \/ (NoCurrent /\ Exactly(TargetsOf(Members))))
             /\ EachOnce /\ Len(S.inv) = Cardinality(ObsInvs)
 (* (the invocations themselves are judged by RightTargets; the status follows the ones made) *)
 ObsExitNonZero == DeclSelected.err \/ DeclTargets = {} \/ \E i \in ObsInvs : StatusOf(i.edition) # 0
 RightExit ==
-  HasObs => \/ ((S.exit # 0) <=> ObsExitNonZero)
+  Judged => \/ ((S.exit # 0) <=> ObsExitNonZero)
             \/ (NoCurrent /\ Exactly(TargetsOf(Members)) /\ ObsInvs # {}
                   /\ ((S.exit # 0) <=> \E i \in ObsInvs : StatusOf(i.edition) # 0))
-AsModel == HasObs => ObsInvs = OpInvs /\ ((S.exit # 0) <=> OpExitNonZero)
+AsModel == Judged => ObsInvs = OpInvs /\ ((S.exit # 0) <=> OpExitNonZero)
 
 ReportInv ==
-  LET F == {n \in {"ModelAgrees", "RightTargets", "RightExit", "AsModel"} :
+  LET F == {n \in {"ModelAgrees", "RightTargets", "RightExit", "AsModel", "ManifestError"} :
               ~(CASE n = "ModelAgrees" -> ModelAgrees [] n = "RightTargets" -> RightTargets
+                  [] n = "ManifestError" -> ManifestError
                   [] n = "RightExit" -> RightExit [] n = "AsModel" -> AsModel)}
   IN PrintT(ToJson([tag |-> "RES", l |-> l, fails |-> F, decl_err |-> DeclSelected.err,
                     op_err |-> OpSelected.err]))
